@@ -127,6 +127,7 @@ def observables_to_settings(
     """Transform an observable to an InitObsSetting initialized in the
     all-zeros state.
     """
+    qubits = tuple(qubits)  # used once per observable
     for observable in observables:
         yield InitObsSetting(init_state=zeros_state(qubits), observable=observable)
 
